@@ -380,7 +380,20 @@ func (fr *Frame) havocLvalue(st *State, se *SpecEnv, lv string, prefix string) {
 			return
 		}
 		cur := v.getPath(v.content(st, p.Obj), p.Path)
-		st.mem[p.Obj] = v.setPath(v.content(st, p.Obj), p.Path, v.freshLike(name, cur))
+		nv := v.freshLike(name, cur)
+		st.mem[p.Obj] = v.setPath(v.content(st, p.Obj), p.Path, nv)
+		// a callee that may modify a slice can only reach the elements of its window [off, off+cap): the rest of
+		// the backing array is unchanged (frame fact for symbolic arrays)
+		if oa, ok1 := cur.(*ArrV); ok1 {
+			if na, ok2 := nv.(*ArrV); ok2 && p.Off != nil && p.Cap != nil {
+				F := v.F
+				v.fresh++
+				bn := fmt.Sprintf("k!frame%d", v.fresh)
+				k := F.Var(bn, SInt)
+				outside := F.Or(F.Lt(k, p.Off), F.Le(F.Add(p.Off, p.Cap), k))
+				st.pc = F.And(st.pc, F.Forall(bn, F.Imp(outside, F.Eq(F.Select(na.Arr, k), F.Select(oa.Arr, k)))))
+			}
+		}
 	case *IteV:
 		unsup("modifies through conditional pointer")
 	default:
